@@ -538,6 +538,50 @@ func jsonSymbolOrder(run *Run, sj []decoder.Symbol, loc map[string]interface{}) 
 // configuration), in source order, for pretty and single-line JSON
 func c14JSON(run *Run, n int) {
 	ctx := context.Background()
+	// many blocks of one type written in array form (the JSON parser gives all of them the position of the
+	// array's bracket) with an attribute written behind them: the k-th block symbol is the k-th written block
+	for _, count := range []int{3, 13, 16, 40} {
+		var items []string
+		for k := 0; k < count; k++ {
+			items = append(items, fmt.Sprintf(`{"val": "v%d"}`, k))
+		}
+		js := `{"res": [{"aws": {"r0": {"str": "s", "item": [` + strings.Join(items, ", ") + `], "zone": "z1"}}}]}`
+		wj := newWorld()
+		pj := wj.AddPath("root", tfSchema(), map[string]string{"main.tf.json": js}, nil)
+		if pj.Ctx.Files["main.tf.json"] == nil {
+			continue
+		}
+		run.Res.Evaluations++
+		run.Count("json_array_form_files")
+		loc := map[string]interface{}{"seed": run.Res.Seed, "json_array_form_blocks": count, "json": js}
+		sj, _ := wj.Dec.Symbols(ctx, "")
+		jsonSymbolOrder(run, sj, loc)
+		k := 0
+		for _, top := range sj {
+			for _, s := range top.NestedSymbols() {
+				if _, isBlock := s.(*decoder.BlockSymbol); !isBlock || s.Name() != "item" {
+					continue
+				}
+				want := fmt.Sprintf(`"v%d"`, k)
+				got := ""
+				for _, c := range s.NestedSymbols() {
+					if rng := c.Range(); rng.End.Byte <= len(js) && rng.Start.Byte <= rng.End.Byte {
+						got += js[rng.Start.Byte:rng.End.Byte]
+					}
+				}
+				if !strings.Contains(got, want) {
+					run.Violate(Violation{Key: "C14/json-array-form-blocks-permuted", Rule: "the symbols of a JSON file (with schema) correspond one-to-one, in source order, to the attributes and blocks written in it", Func: "Decoder.Symbols",
+						Detail: fmt.Sprintf("block symbol #%d of %d holds %s, written there: %s", k, count, got, want), Replay: loc})
+					break
+				}
+				k++
+			}
+		}
+		if k != count {
+			run.Violate(Violation{Key: "C14/json-array-form-blocks-count", Rule: "the symbols of a JSON file (with schema) correspond one-to-one, in source order, to the attributes and blocks written in it", Func: "Decoder.Symbols",
+				Detail: fmt.Sprintf("%d of %d written blocks have their symbol in place", k, count), Replay: loc})
+		}
+	}
 	for i := 0; i < n; i++ {
 		r := rand.New(rand.NewSource(subSeed(run.Res.Seed, 140000+i)))
 		db := genDual(r)
